@@ -16,7 +16,11 @@ pub enum RuleEvent {
     Start(Vec<VerifToken>),
     Refuse(String),
     Apply(String, Vec<VerifToken>),
-    Done
+    Done,
+    /// a tokenizer asked for the byte span (start, end) through Tokinizer::add_token_location; was it granted
+    Claim(usize, usize, bool),
+    /// a tokenizer was created for a text of that many bytes (the line itself, or a step code evaluated on the way)
+    Scan(usize)
 }
 
 std::thread_local! {
